@@ -955,3 +955,276 @@ Lemma video_out_text_eq_struct : text_eq_struct_io video_out_spec.
 Proof. apply text_eq_struct_io_holds. cbn. neq. Qed.
 Lemma image_out_text_eq_struct : text_eq_struct_io image_out_spec.
 Proof. apply text_eq_struct_io_holds. cbn. neq. Qed.
+
+(* ================= MQTTOut and REST ======================================================== *)
+Section WithDates2.
+  Variable date_ok : str -> bool.
+  Notation base := (base_normalize date_ok).
+  Notation mqtt := (mqtt_normalize date_ok).
+  Notation rest := (rest_normalize date_ok).
+
+  (* ---- REST is NOT idempotent: a leading '//' loses one '/' per pass ------------------------------ *)
+  (* {'outputs': 'tcp://*', 'sources': 'http://h:80;//a>t'}: path '/a' after the first pass, 'a' after the second *)
+  Lemma rest_not_idempotent :
+    exists c c', rest_normalize all_dates_ok c = Ok c' /\ rest_normalize all_dates_ok c' <> Ok c'.
+  Proof.
+    exists [(s_outputs, VStr [116;99;112;58;47;47;42]);
+            (s_sources, VStr [104;116;116;112;58;47;47;104;58;56;48;59;47;47;97;62;116])].
+    eexists. split; [vm_compute; reflexivity|]. vm_compute. discriminate.
+  Qed.
+
+  (* ---- MQTTOut ---------------------------------------------------------------------------------------- *)
+  Lemma ends_with_slash_last_component p c d : last_component p = c :: d -> ends_with [47] (c :: d) = false.
+  Proof.
+    intro E. unfold last_component in E.
+    assert (Hn : mem_z 47 (c :: d) = false).
+    { rewrite <- E. pose proof (split_on_pieces_nosep 47 p) as F. rewrite Forall_forall in F. apply F.
+      apply last_In. apply split_on_nonempty. }
+    unfold ends_with. change (rev [47]) with [47]. destruct (rev (c :: d)) as [|y r] eqn:Er; [reflexivity|].
+    cbn [starts_with]. destruct (47 =? y) eqn:Ey; [|reflexivity]. apply Z.eqb_eq in Ey. subst y.
+    assert (In 47 (c :: d)) by (apply in_rev; rewrite Er; left; reflexivity).
+    apply mem_z_false_Forall in Hn. rewrite Forall_forall in Hn. exfalso. apply (Hn 47 H). reflexivity.
+  Qed.
+
+  Lemma mqtt_elem2_fix r r' : mqtt_elem2 r = Ok r' -> mqtt_elem2 r' = Ok r'.
+  Proof.
+    unfold mqtt_elem2 at 1. intro H. apply bind_ok in H as (o & Ho & H).
+    set (r1 := dset s_options (VDict o) r) in *.
+    destruct (forallb (fun kv => str_mem (fst kv) mqtt_options) o) eqn:Fo; [|discriminate H]. cbn [negb] in H.
+    apply bind_ok in H as (dst & Hd & H).
+    destruct (match dst with Some (c :: d) => ends_with [47] (c :: d) | _ => false end) eqn:Ee; [discriminate H|].
+    assert (Opt1 : dattr s_options r1 = VDict o) by (unfold r1; apply dattr_dset_same).
+    (* re-running on a record that agrees with r1 on options / dst_topic / src_path *)
+    assert (Same : forall r2, dget s_options r2 = Some (VDict o) ->
+              mqtt_elem2 r2 =
+              (dst <- match dattr s_dst_topic r2 with VNone => Ok None | VStr d => Ok (Some d) | _ => Err EOther end ;;
+               if (match dst with Some (c :: d) => ends_with [47] (c :: d) | _ => false end) then Err EValue else
+               let dst_truthy := match dst with Some (_ :: _) => true | _ => false end in
+               match dattr s_src_path r2 with
+               | VNone | VStr [] => if dst_truthy then Err EValue else Ok r2
+               | VStr p =>
+                   if ends_with [47] p then Err EValue
+                   else if starts_with s_image_slash p then Err EValue
+                   else if negb (str_eqb p s_image || str_eqb p s_data) && negb (starts_with s_data_slash p) then Err EValue
+                   else match dst with
+                        | None => Ok (dset s_dst_topic (VStr (if str_eqb p s_image then s_frames else last_component p)) r2)
+                        | Some _ => Ok r2
+                        end
+               | _ => Err EOther
+               end)).
+    { intros r2 G. unfold mqtt_elem2. rewrite (dget_dattr _ _ _ G). cbn [bind]. rewrite (dset_same_id _ _ _ G), Fo. reflexivity. }
+    assert (G1 : dget s_options r1 = Some (VDict o)) by (unfold r1; apply dget_dset_same).
+    assert (Self : mqtt_elem2 r1 = Ok r' -> r' = r1 -> mqtt_elem2 r' = Ok r') by (intros A ->; exact A).
+    destruct (dattr s_src_path r1) as [| | | | p | | |] eqn:Ep; try discriminate H.
+    - (* no path *)
+      destruct (match dst with Some (_ :: _) => true | _ => false end) eqn:Et; [discriminate H|]. injection H as <-.
+      rewrite (Same r1 G1), Hd. cbn [bind]. rewrite Ee, Ep, Et. reflexivity.
+    - destruct p as [|x p'].
+      + destruct (match dst with Some (_ :: _) => true | _ => false end) eqn:Et; [discriminate H|]. injection H as <-.
+        rewrite (Same r1 G1), Hd. cbn [bind]. rewrite Ee, Ep, Et. reflexivity.
+      + destruct (ends_with [47] (x :: p')) eqn:E1; [discriminate H|].
+        destruct (starts_with s_image_slash (x :: p')) eqn:E2; [discriminate H|].
+        destruct (negb (str_eqb (x :: p') s_image || str_eqb (x :: p') s_data) && negb (starts_with s_data_slash (x :: p'))) eqn:E3;
+          [discriminate H|].
+        destruct dst as [d|].
+        * injection H as <-. rewrite (Same r1 G1), Hd. cbn [bind]. rewrite Ee, Ep, E1, E2, E3. reflexivity.
+        * injection H as <-.
+          set (X := if str_eqb (x :: p') s_image then s_frames else last_component (x :: p')).
+          change (mqtt_elem2 (dset s_dst_topic (VStr X) r1) = Ok (dset s_dst_topic (VStr X) r1)).
+          assert (G2 : dget s_options (dset s_dst_topic (VStr X) r1) = Some (VDict o)).
+          { rewrite dget_dset_other by neq. exact G1. }
+          rewrite (Same _ G2), dattr_dset_same. cbn [bind].
+          assert (EX : match X with c :: d => ends_with [47] (c :: d) | [] => false end = false).
+          { unfold X. destruct (str_eqb (x :: p') s_image); [reflexivity|].
+            destruct (last_component (x :: p')) eqn:EL; [reflexivity|]. eapply ends_with_slash_last_component; eauto. }
+          rewrite EX. rewrite dattr_dset_other by neq. rewrite Ep, E1, E2, E3. reflexivity.
+  Qed.
+
+  Lemma mapM_mqtt_elem2_fix rs rs' : mapM mqtt_elem2 rs = Ok rs' -> mapM mqtt_elem2 rs' = Ok rs'.
+  Proof.
+    intro H. apply mapM_ok_fix. apply mapM_ok_Forall2 in H.
+    induction H as [|e e' l l' He _ IH]; constructor; [|exact IH]. eapply mqtt_elem2_fix; eauto.
+  Qed.
+  Lemma mapM_mqtt_elem1_dicts rs : mapM mqtt_elem1 (map VDict rs) = Ok rs.
+  Proof. induction rs as [|r rs IH]; cbn; [reflexivity|]. rewrite IH. reflexivity. Qed.
+
+  (* the mapping phase: everything behind the client id *)
+  Definition mqtt_tail (c4 : dict cval) : res (dict cval) :=
+    let ms := scm (dattr s_mappings c4) in
+    let c5 := dset s_mappings ms c4 in
+    if truthy ms then
+      match ms with
+      | VList l =>
+          rs <- mapM mqtt_elem1 l ;;
+          rs' <- mapM mqtt_elem2 rs ;;
+          let dsts := map (dattr s_dst_topic) rs' in
+          if Nat.ltb 1 (length (filter (fun v => negb (not_none v)) dsts)) then Err EValue
+          else if negb (nodup_cval dsts) then Err EValue
+          else Ok (dset s_mappings (VList (map VDict rs')) c5)
+      | _ => Err EOther
+      end
+    else Ok c5.
+
+  Lemma mqtt_tail_props c4 c' :
+    mqtt_tail c4 = Ok c' ->
+    mqtt_tail c' = Ok c' /\ (forall k, k <> s_mappings -> dget k c' = dget k c4).
+  Proof.
+    unfold mqtt_tail at 1. intro H.
+    set (ms := scm (dattr s_mappings c4)) in *.
+    destruct (truthy ms) eqn:T.
+    - destruct ms as [| | | | | l | |] eqn:Ems; try discriminate H.
+      apply bind_ok in H as (rs & M1 & H). apply bind_ok in H as (rs' & M2 & H).
+      destruct (Nat.ltb 1 _) eqn:C1; [discriminate H|]. destruct (nodup_cval _) eqn:C2; [|discriminate H].
+      cbn [negb] in H. injection H as <-. rewrite dset_dset. split; [|intros k N; apply dget_dset_other; exact N].
+      unfold mqtt_tail. rewrite dattr_dset_same. cbn [scm]. rewrite dset_dset.
+      assert (Len : length rs' = length l) by (rewrite (mapM_length _ _ _ M2); apply (mapM_length _ _ _ M1)).
+      assert (T' : truthy (VList (map VDict rs')) = true).
+      { cbn in T |- *. destruct l; [discriminate T|]. destruct rs'; [discriminate Len|reflexivity]. }
+      rewrite T', mapM_mqtt_elem1_dicts. cbn [bind]. rewrite (mapM_mqtt_elem2_fix _ _ M2). cbn [bind].
+      rewrite C1, C2. cbn [negb]. rewrite dset_dset. reflexivity.
+    - injection H as <-. split; [|intros k N; apply dget_dset_other; exact N].
+      assert (Es : scm ms = ms) by (unfold ms; apply scm_scm).
+      unfold mqtt_tail. rewrite dattr_dset_same, Es, dset_dset, T. reflexivity.
+  Qed.
+
+  Definition mqtt_client (c3 : dict cval) : res (dict cval) :=
+    match dattr s_client_id c3 with
+    | VBool true =>
+        match dattr s_id c3 with
+        | VStr i => Ok (dset s_client_id (VStr (i ++ s_RANDOM)) c3)
+        | VNone => Ok (dset s_client_id (VStr (s_None ++ s_RANDOM)) c3)
+        | _ => Err EOther
+        end
+    | _ => Ok c3
+    end.
+
+  Lemma mqtt_client_done d : match dattr s_client_id d with VBool true => False | _ => True end -> mqtt_client d = Ok d.
+  Proof. intro Hd. unfold mqtt_client. destruct (dattr s_client_id d) as [|[]| | | | | |]; try reflexivity. contradiction. Qed.
+
+  Lemma mqtt_client_props c3 c4 :
+    mqtt_client c3 = Ok c4 ->
+    mqtt_client c4 = Ok c4 /\ (forall k, k <> s_client_id -> dget k c4 = dget k c3)
+    /\ (match dattr s_client_id c4 with VBool true => False | _ => True end).
+  Proof.
+    unfold mqtt_client at 1. intro H.
+    assert (Hdone : forall d, match dattr s_client_id d with VBool true => False | _ => True end -> mqtt_client d = Ok d).
+    { intros d Hd. unfold mqtt_client. destruct (dattr s_client_id d) as [|[]| | | | | |]; try reflexivity. contradiction. }
+    destruct (dattr s_client_id c3) as [|[|]| | | | | |] eqn:E; try (injection H as <-; split; [apply Hdone; rewrite E; exact I|split; [reflexivity|rewrite E; exact I]]).
+    destruct (dattr s_id c3); try discriminate H; injection H as <-;
+      (split; [apply Hdone; rewrite dattr_dset_same; exact I|split; [intros k N; apply dget_dset_other; exact N|rewrite dattr_dset_same; exact I]]).
+  Qed.
+
+  (* a configuration without "outputs" that the later phases leave alone is a fixed point *)
+  Lemma mqtt_fix d :
+    dget s_outputs d = None -> base_fixed date_ok d -> truthy (dattr s_sources d) = true ->
+    mqtt_client d = Ok d -> mqtt_tail d = Ok d -> mqtt d = Ok d.
+  Proof.
+    intros Hk Fb Ts Hc Ht. assert (Ao : dattr s_outputs d = VNone) by (unfold dattr; rewrite Hk; reflexivity).
+    unfold mqtt_normalize. rewrite Ao. cbn [scm truthy]. rewrite (ddel_absent _ _ Hk), (base_fixed_ok _ _ Fb). cbn [bind].
+    rewrite Ts. cbn [negb bind]. fold (mqtt_client d). rewrite Hc. cbn [bind]. exact Ht.
+  Qed.
+
+  Lemma fold_dset_other (opts : dict oval) (c : dict cval) k :
+    ~ In k (map fst opts) ->
+    dget k (fold_left (fun d kv => dset (fst kv) (cval_of_oval (snd kv)) d) opts c) = dget k c.
+  Proof.
+    revert c; induction opts as [|[k1 v1] opts IH]; intros c N; cbn [fold_left]; [reflexivity|].
+    rewrite IH by (intro; apply N; right; assumption). apply dget_dset_other. intro; subst. apply N. left. reflexivity.
+  Qed.
+
+  Lemma mqtt_output_props c o c' :
+    mqtt_output c o = Ok c' ->
+    dget s_outputs c' = None /\
+    forall k, ~ In k [s_outputs; s_mappings; s_qos; s_retain; s_base_topic; s_broker_host; s_broker_port] -> dget k c' = dget k c.
+  Proof.
+    unfold mqtt_output. destruct (starts_with s_mqtt_scheme o); [|discriminate]. cbn [negb]. intro H.
+    apply bind_ok in H as ([output tps] & _ & H). apply bind_ok in H as (ca & Ha & H).
+    destruct (parse_options output) as [anb options].
+    destruct (forallb (fun kv => str_mem (fst kv) mqtt_options) options) eqn:Fo; [|discriminate H]. cbn [negb] in H.
+    destruct (existsb _ options); [discriminate H|].
+    set (cb := fold_left _ options ca) in *.
+    destruct (split1 47 anb) as [addr base_topic].
+    apply bind_ok in H as (cc & Hc & H).
+    destruct (rsplit1 58 addr) as [host port].
+    apply bind_ok in H as (cd & Hd & H). injection H as <-.
+    split; [apply dget_ddel_same|]. intros k N.
+    assert (N' : forall k0, In k0 [s_outputs; s_mappings; s_qos; s_retain; s_base_topic; s_broker_host; s_broker_port] -> k <> k0).
+    { intros k0 Hin E. subst. contradiction. }
+    rewrite dget_ddel_other by (apply N'; cbn; tauto).
+    assert (Ea : dget k ca = dget k c).
+    { destruct tps as [| |[|m ms]]; try (injection Ha as <-; reflexivity).
+      destruct (not_none (dattr s_mappings c)); [discriminate Ha|]. injection Ha as <-.
+      apply dget_dset_other. apply N'. cbn; tauto. }
+    assert (Eb : dget k cb = dget k c).
+    { unfold cb. rewrite fold_dset_other; [exact Ea|]. intro Hin. apply in_map_iff in Hin as ([k1 v1] & E & Hin). cbn in E. subst k1.
+      rewrite forallb_forall in Fo. specialize (Fo _ Hin). cbn [fst] in Fo. apply str_mem_In in Fo.
+      cbn in Fo. destruct Fo as [F|[F|[]]]; subst; apply N; cbn; tauto. }
+    assert (Ec : dget k cc = dget k c).
+    { destruct base_topic as [bt|]; [|injection Hc as <-; exact Eb].
+      destruct (not_none (dattr s_base_topic cb)); [discriminate Hc|]. injection Hc as <-.
+      rewrite dget_dset_other by (apply N'; cbn; tauto). exact Eb. }
+    destruct (negb (is_empty host) || match port with Some _ => true | None => false end); [|injection Hd as <-; exact Ec].
+    destruct (not_none (dattr s_broker_host cc) || not_none (dattr s_broker_port cc)); [discriminate Hd|].
+    assert (E1 : dget k (if is_empty host then cc else dset s_broker_host (VStr host) cc) = dget k c).
+    { destruct (is_empty host); [exact Ec|]. rewrite dget_dset_other by (apply N'; cbn; tauto). exact Ec. }
+    destruct port as [p|]; [|injection Hd as <-; exact E1].
+    destruct (parse_int p); [|discriminate Hd]. injection Hd as <-.
+    rewrite dget_dset_other by (apply N'; cbn; tauto). exact E1.
+  Qed.
+
+  (* idempotence whenever "outputs" is absent / None or a proper (truthy) value; an empty
+     outputs ('' or []) is kept and changes place on the second pass (equal as a dict only) *)
+  Theorem mqtt_idempotent_partial c c' :
+    (scm (dattr s_outputs c) = VNone \/ truthy (scm (dattr s_outputs c)) = true) ->
+    mqtt c = Ok c' -> mqtt c' = Ok c'.
+  Proof.
+    intros Houts H. unfold mqtt_normalize in H.
+    set (outs := scm (dattr s_outputs c)) in *.
+    apply bind_ok in H as (c1 & B & H).
+    set (c2 := match outs with VNone => c1 | _ => dset s_outputs outs c1 end) in *.
+    destruct (truthy (dattr s_sources c2)) eqn:Ts; [|discriminate H]. cbn [negb] in H.
+    apply bind_ok in H as (c3 & H3 & H). fold (mqtt_client c3) in H. apply bind_ok in H as (c4 & H4 & H).
+    fold (mqtt_tail c4) in H.
+    pose proof (base_result_no_key _ _ _ _ B) as Hk.
+    pose proof (base_makes_fixed _ _ _ B) as Fb.
+    (* c3 has no "outputs" and agrees with c1 on the keys of the base class and on "sources" *)
+    assert (P3 : dget s_outputs c3 = None /\
+                 forall k, ~ In k [s_outputs; s_mappings; s_qos; s_retain; s_base_topic; s_broker_host; s_broker_port] ->
+                           dget k c3 = dget k c1).
+    { destruct Houts as [E|T].
+      - assert (E2 : c2 = c1) by (unfold c2; rewrite E; reflexivity).
+        rewrite E in H3. cbn [truthy] in H3. injection H3 as <-. rewrite E2. split; [exact Hk|reflexivity].
+      - rewrite T in H3.
+        destruct outs as [| | | | | l | |] eqn:Eouts; try discriminate H3.
+        destruct l as [|o [|? ?]]; try discriminate H3; [|destruct o; discriminate H3].
+        destruct o as [| | | | o | | |]; try discriminate H3.
+        destruct (mqtt_output_props _ _ _ H3) as [A1 A2]. split; [exact A1|]. intros k N.
+        rewrite (A2 k N). unfold c2. apply dget_dset_other. intro; subst. apply N. cbn; tauto. }
+    destruct P3 as [K3 S3].
+    destruct (mqtt_client_props _ _ H4) as (Cfix & C4 & _).
+    destruct (mqtt_tail_props _ _ H) as (Tfix & T5).
+    assert (Same : forall k, ~ In k [s_outputs; s_mappings; s_qos; s_retain; s_base_topic; s_broker_host; s_broker_port; s_client_id] ->
+                             dget k c' = dget k c1).
+    { intros k N. rewrite T5 by (intro; subst; apply N; cbn; tauto). rewrite C4 by (intro; subst; apply N; cbn; tauto).
+      apply S3. intro Hin. apply N. cbn in Hin |- *. tauto. }
+    apply mqtt_fix.
+    - rewrite T5 by neq. rewrite C4 by neq. exact K3.
+    - destruct Fb as (F1 & F2 & F3 & F4 & F5 & F6).
+      assert (Ko : dget s_outputs c' = None) by (rewrite T5 by neq; rewrite C4 by neq; exact K3).
+      repeat split.
+      + eapply fixed_ext; [|exact F1]. symmetry. apply Same. cbn. intros [E|[E|[E|[E|[E|[E|[E|[E|[]]]]]]]]]; discriminate E.
+      + unfold fixed. rewrite Ko. exact I.
+      + eapply fixed_ext; [|exact F3]. symmetry. apply Same. cbn. intros [E|[E|[E|[E|[E|[E|[E|[E|[]]]]]]]]]; discriminate E.
+      + eapply fixed_ext; [|exact F4]. symmetry. apply Same. cbn. intros [E|[E|[E|[E|[E|[E|[E|[E|[]]]]]]]]]; discriminate E.
+      + eapply fixed_ext; [|exact F5]. symmetry. apply Same. cbn. intros [E|[E|[E|[E|[E|[E|[E|[E|[]]]]]]]]]; discriminate E.
+      + eapply fixed_ext; [|exact F6]. symmetry. apply Same. cbn. intros [E|[E|[E|[E|[E|[E|[E|[E|[]]]]]]]]]; discriminate E.
+    - unfold dattr. rewrite Same by (cbn; intros [E|[E|[E|[E|[E|[E|[E|[E|[]]]]]]]]]; discriminate E).
+      assert (E2 : dget s_sources c2 = dget s_sources c1).
+      { unfold c2. destruct outs; try reflexivity; apply dget_dset_other; neq. }
+      unfold dattr in Ts. rewrite E2 in Ts. exact Ts.
+    - (* client id: unchanged by the mapping phase *)
+      destruct (mqtt_client_props _ _ H4) as (_ & _ & Hnt).
+      apply mqtt_client_done. unfold dattr in Hnt |- *. rewrite T5 by neq. exact Hnt.
+    - exact Tfix.
+  Qed.
+End WithDates2.
